@@ -6,6 +6,7 @@ git -C /repo diff --quiet || { echo "/repo has uncommitted changes"; exit 3; }
 TOUCHED=""
 for d in seeded/*/; do
   name=$(basename "$d"); id=$(echo "$name" | cut -c1-3)
+  [ -f "$d/detected_by" ] && id=$(cat "$d/detected_by")   # written for one property, reported by the check of another (see meta.json)
   git -C /repo apply "/verif/$d/patch.diff" || { echo "$name: patch does not apply"; continue; }
   out=$(timeout 1500 ./check "$id" --tier quick 2>&1); rc=$?
   git -C /repo checkout -- .
